@@ -3,8 +3,9 @@
    value tokens:  i<int>  y<symbol>  s<string>  o<n>  ( .. )  [ .. ]  { typename k v k v .. }
    template tokens (abstract syntax): the same, plus  ~ <value>  and  ~@ <value>
    kinds:
-     sq|A|V|form => value|form => !|...       value of (syntaxQuote V); A = the template as abstract syntax
-     mac|params|A|V|arg , arg , ..|form => value|...   expansion of (m args) for (defmac m [params] ^V)
+     sq:route|SRC|A|V|form => value|form => !|...   value of (syntaxQuote V); A = the template as abstract
+                                                syntax, V = what the real reader produced from SRC
+     mac|SRC|params|A|V|arg , arg , ..|form => value|...   expansion of (m args) for (defmac m [params] ^V)
      call|EXPECTED                              echo (the expectation is computed by the harness from
                                                 the hand-substituted program; see docs/C15.md) *)
 open Model
@@ -118,7 +119,7 @@ let () =
     match split_tab line with
     | [id; body] ->
       (match String.split_on_char '|' body with
-       | "sq" :: a :: v :: binds ->
+       | ("sq:text" | "sq:ctx" | "sq:api") :: _src :: a :: v :: binds ->
          let a = tmpl_of_string a and v = value_of_string v in
          let rho = mk_rho (List.map parse_binding binds) in
          let model =
@@ -131,7 +132,7 @@ let () =
            else if is_splice a then "-"
            else (match subst rho a with Ok x -> show x ^ " +0" | Err -> "ERR") in
          Printf.printf "%s\t%s\t%s\t%s\n" id model spec (long_hash_splice rho a)
-       | "mac" :: params :: a :: v :: args :: binds ->
+       | "mac" :: _src :: params :: a :: v :: args :: binds ->
          let params = List.map sym (split_sp params) in
          let a = tmpl_of_string a and v = value_of_string v in
          let args = List.filter (fun s -> String.trim s <> "") (split_on " , " args) in
@@ -154,8 +155,7 @@ let () =
            else if is_splice a then "-"
            else (match subst rho a with Ok x -> show x | Err -> "ERR") in
          Printf.printf "%s\tE=%s H=%s\tE=%s H=%s\t%s\n" id model model spec spec (long_hash_splice rho a)
-       | "call" :: rest ->
-         let e = String.concat "|" rest in
+       | "call" :: e :: _ ->
          Printf.printf "%s\t%s\t%s\t\n" id e e
        | _ -> failwith ("bad case: " ^ body))
     | _ -> failwith ("bad line: " ^ line))
